@@ -117,6 +117,10 @@ def run(chk):
         chk.floor('arms of ValueObj::eq', len(arms), 15)
         if ncast == 0:
             chk.ok('C01-R4', 'no-cast', sample='ValueObj::eq / same_const: no integer cast at all')
+    # ---- default parameter values reach the function object: the MAKE_FUNCTION flag word (shared with C14-R13)
+    from sa.props import c14
+    cg = fx.file('crates/erg_compiler/codegen.rs')
+    c14.flag_rule(chk, {T.norm(f['path']): f for f in cg['fns'] if (f.get('self_ty') or '').split('::')[-1] == 'PyCodeGenerator'}, 'C01-flags')
     return ('Integer-cast audit (typed HIR: source and target types of every `as`) over the marshalling writers, and a structural rule on the constant-pool predicate. '
             'Decides the clause "for every literal value, including naturals >= 2**31 and signed zeros"; operator/loop/function semantics of emitted code are run-time facts and are not decided.'), {}
 
